@@ -38,12 +38,12 @@ class Sym:
             self._same = f"matches!(%s, Value::Bool(p_) if *p_ == {v})"
             self.descr = "both booleans"
         elif tag == "DateTime":
-            self.decl = f"let {v} = any_datetime(inp);"
+            self.decl = f"let ({v}, {v}_y, {v}_ord, {v}_secs, {v}_nano) = any_datetime_parts(inp);"
             self.value = f"Value::DateTime({v})"
             self._same = f"matches!(%s, Value::DateTime(p_) if *p_ == {v})"
             self.descr = "every valid DateTime<Utc> (no leap-second representation)"
         elif tag == "Duration":
-            self.decl = f"let {v} = any_duration(inp);"
+            self.decl = f"let ({v}, {v}_s, {v}_n) = any_duration_parts(inp);"
             self.value = f"Value::Duration({v})"
             self._same = f"matches!(%s, Value::Duration(p_) if *p_ == {v})"
             self.descr = "every valid TimeDelta"
